@@ -8,7 +8,7 @@ from harness.common import run_driver, lean_obligations
 from harness.translate import translator_obligations
 
 MODULE = 'Ndt.Props.C11'
-THEOREMS = ['Ndt.complex_misuse_raises', 'Ndt.multicomplex_high_order_raises', 'Ndt.too_few_steps_raises',
+THEOREMS = ['Ndt.complex_misuse_raises', 'Ndt.multicomplex_high_order_raises', 'Ndt.too_few_steps_raises', 'Ndt.no_steps_raises',
             'Ndt.wrong_size_raises', 'Ndt.valid_call_returns', 'Ndt.directionaldiff_mismatch_raises',
             'Ndt.residue_order_guard', 'Ndt.residue_default_order', 'Ndt.unknown_path_raises']
 CLASSES = ['Derivative', 'Gradient', 'Jacobian', 'Hessdiag', 'Hessian']
@@ -191,6 +191,14 @@ def run(ctx):
             rl = LogRule(n=n, method=m, order=order).rule(2.0).size
             check('too few steps' if k <= rl - 1 else 'enough steps', th,
                   'outcome %s %s %d %d 0 0 %d %d %d' % (cls, m, n, order, fs, hs, k), k <= rl - 1, cls=cls, method=m, n=n, order=order, k=k)
+    # no step at all: zero steps are dropped by the generators, so a user step below the resolution of 1.0 (use_exact_steps) leaves an
+    # empty sequence — the extreme case of "fewer steps than the rule needs" (repaired in 347de98: used to be an IndexError)
+    for cls in CLASSES:
+        for m in ('central', 'forward', 'complex'):
+            for tiny in (1e-19, 1e-17):
+                n_ = 2 if cls in ('Hessdiag', 'Hessian') else 1
+                th, fs, hs = make_call(nd, cls, m, n_, 2, 2, False, False, steps=tiny)
+                check('no non-zero step', th, 'outcome %s %s %d 2 0 0 %d %d 0' % (cls, m, n_, fs, hs), True, cls=cls, method=m, step=tiny)
     # wrong number of values (for a single input element several values are legitimate: R -> R^k)
     for dim in (2, 3, 5):
         for m in ('central', 'forward', 'complex'):
